@@ -391,3 +391,43 @@ func vpSameRoot(got, want any, typed bool, label string) {
 		}
 	}
 }
+
+// the carriers under every schedule on structured values (arrays of several
+// multi-byte elements, which arbitrary 0..8-byte strings cannot contain): the
+// text / captured bytes equal the contiguous read and exactly the value is
+// consumed.
+func VP_C09_root_carriers() {
+	// concrete values (the text form of a symbolic integer forks on its digits;
+	// values are C04's subject), every container kind
+	docs := [][]byte{
+		{TagIntArray, 0, 0, 0, 3, 0, 0, 0, 1, 0xff, 0xff, 0xff, 0xfe, 0, 0, 1, 44},
+		{TagLongArray, 0, 0, 0, 2, 0, 0, 0, 0, 0, 0, 0, 5, 0xff, 0xff, 0xff, 0xff, 0xff, 0xff, 0xff, 0xfa},
+		{TagByteArray, 0, 0, 0, 5, 1, 2, 3, 4, 5},
+		{TagList, TagShort, 0, 0, 0, 3, 0, 1, 0, 2, 0xff, 0xff},
+		{TagList, TagIntArray, 0, 0, 0, 2, 0, 0, 0, 1, 0, 0, 0, 9, 0, 0, 0, 2, 0, 0, 0, 7, 0, 0, 0, 8},
+		{TagString, 0, 5, 'h', 'e', 'l', 'l', 'o'},
+		{TagCompound, TagLongArray, 0, 1, 'a', 0, 0, 0, 1, 0, 0, 0, 0, 0, 0, 0, 3, TagDouble, 0, 1, 'd', 0x40, 0x09, 0x21, 0xfb, 0x54, 0x44, 0x2d, 0x18, 0},
+	}
+	doc := docs[vp.Choice(len(docs))]
+	tag, payload := doc[0], doc[1:]
+	stringified := vp.Choice(2) == 1
+	dec := func(r DecoderReader) (string, error) {
+		if stringified {
+			var m StringifiedMessage
+			err := m.UnmarshalNBT(tag, r)
+			return string(m), err
+		}
+		var m RawMessage
+		err := m.UnmarshalNBT(tag, r)
+		return string(m.Data), err
+	}
+	r1 := &vpByteReader{b: append(append([]byte{}, payload...), 0x31)}
+	v1, e1 := dec(r1)
+	vp.Assert(e1 == nil && r1.pos == len(payload), "contiguous read consumes exactly the value")
+	r2 := vpSchedule(append(append([]byte{}, payload...), 0x31))
+	v2, e2 := dec(reader{r2})
+	vp.Assert(e2 == nil, "same error-ness under fragmentation")
+	vp.Assert(r2.pos == len(payload), "same residual stream under fragmentation")
+	vp.Assert(v1 == v2, "same value under fragmentation")
+	vp.Cover("end")
+}
